@@ -87,6 +87,7 @@ func TestDirectedCases(t *testing.T) {
 			for _, mode := range []string{"engine", "compiled"} {
 				c := c
 				c.Mode = mode
+				rec.Begin(mode, c)
 				rec.Report(t, mode, c, run(c, rec))
 			}
 		}
